@@ -1,5 +1,6 @@
 (* C29  Package acceptance is well-formed and leaves no dangling children. *)
-From BV Require Import lib.Ints gen.Params_gen model.Package model.PackageAccept proofs.PackageLemmas proofs.PackageAcceptLemmas.
+From BV Require Import lib.Ints gen.Params_gen model.Package model.PackageAccept model.Truc model.PackageTruc
+  proofs.PackageLemmas proofs.PackageAcceptLemmas proofs.PackageTrucLemmas.
 Local Open Scope Z_scope.
 
 (* For every package that is a C++ value (size fits unsigned int; weights non-negative with
@@ -123,6 +124,12 @@ Theorem C29_premises_satisfiable : forall utxo,
   single_ok utxo (toy_single utxo) /\ multi_ok utxo (toy_multi utxo) /\ trim_ok toy_trim.
 Proof. intros utxo. split; [apply toy_single_ok | split; [apply toy_multi_ok | apply toy_trim_ok]]. Qed.
 Print Assumptions C29_premises_satisfiable.
+
+(* ... and so does the evaluator with the TRUC rules plugged in, the one the acceptance correspondences run. *)
+Theorem C29_premises_satisfiable_with_truc : forall utxo,
+  single_ok utxo (toy3_single utxo) /\ multi_ok utxo (toy3_multi utxo) /\ trim_ok toy_trim.
+Proof. intros utxo. split; [apply toy3_single_ok | split; [apply toy3_multi_ok | apply toy_trim_ok]]. Qed.
+Print Assumptions C29_premises_satisfiable_with_truc.
 
 (* a low-fee parent carried by its child: both end up in the mempool, two results, both VALID *)
 Definition ex_utxo (o : outpoint) : bool := (fst o =? 2000000) && (snd o =? 0).
